@@ -25,6 +25,7 @@ static std::vector<Doc> corpus(int arch) {
 		auto row = [](Val a, Val b, Val c) { return V::map({{V::str("a"), a}, {V::str("b"), b}, {V::str("c"), c}}); };
 		r.push_back({"rows_plain", V::arr({row(V::integer(1), V::str("x"), V::integer(3)), row(V::integer(4), V::str("y"), V::integer(6))})});
 		r.push_back({"rows_quoted", V::arr({row(V::integer(1), V::str("x,\"q\""), V::str("l1\nl2")), row(V::integer(4), V::str("é€"), V::str("z"))})});
+		r.push_back({"rows_text_last", V::arr({row(V::integer(1), V::str("x"), V::str("p3")), row(V::integer(4), V::str("y"), V::str("q6")), row(V::integer(7), V::str("z"), V::str(""))})});   // the last column is text: a CR left on it is visible
 		r.push_back({"rows_1", V::arr({row(V::str("only"), V::str("r"), V::integer(-9))})});
 		return r;
 	}
@@ -82,7 +83,7 @@ static void body(bsx::Ctx& c) {
 	if (!tl::canCarry(arch, d.v)) { c.outcome("n/a"); return; }
 	const int chunk = (arch == tl::MsgPack) ? kBinChunk : kEncChunk;
 	std::vector<int> pads;
-	if (chunk <= 32) { for (int p = 0; p <= chunk; ++p) if (thorough || chunk <= 16 || p % 3 == 0 || p >= chunk - 2) pads.push_back(p); }
+	if (chunk <= 32) { for (int p = 0; p <= chunk; ++p) if (thorough || chunk <= 16 || arch == tl::Csv || p % 3 == 0 || p >= chunk - 2) pads.push_back(p); }   // CSV: every alignment (line ends are single characters)
 	else if (thorough) { pads.push_back(0); for (int p = chunk - 48; p <= chunk; ++p) if (p % 2 == 0 || p >= chunk - 9) pads.push_back(p); }
 	else pads = {0, chunk - 30, chunk - 17, chunk - 9, chunk - 4, chunk - 1};
 	int pad = pads[static_cast<size_t>(c.choose(static_cast<int>(pads.size()), "pad"))];
